@@ -57,6 +57,70 @@ PREFIX_ALTERNATIONS = ["a|ab", "ab|a", "=|==", "[a-z]+|if", "if|[a-z]+", "a|ab|a
                        "(a|ab)(c|bcd)", "0|0x[0-9]+", "[0-9]+|[0-9]+\\.[0-9]+"]
 
 
+FP_V = """(* GENERATED: the direct route's syntax tree, its nullable / firstpos / lastpos / followpos and its automaton, as dumped from
+   internal/regex/parser/ast, against the model of Reg/Followpos.v (positions one-based as in the implementation) *)
+From Coq Require Import List Bool NArith.
+From Verif Require Import Base.CharSet Reg.Dfa Reg.Regex Reg.EquivCheck Reg.Followpos Reg.FollowposRe Reg.MaxMunch.
+Import ListNotations.
+Local Open Scope N_scope.
+Definition fp_case := (node * N * bool * list nat * list nat * list (nat * list nat) * (dfa * list N))%%type.
+(* 1: the end marker occurs in the tree; 2: a table differs from the model; 3: the automaton is not the position automaton *)
+Definition verdict (c : fp_case) : N :=
+  let '(r, em, nul, f, l, fol, (d, fin)) := c in
+  if existsb (N.eqb em) (chars r) then 1
+  else if negb (tables_agree r em nul f l fol) then 2
+  else if negb (dfa_re_check d fin (re_of r) (N.to_nat 100000)) then 3 else 0.
+Definition agrees (c : fp_case) : bool := verdict c =? 0.
+Definition cases : list fp_case := [
+%s
+].
+Definition M := Eval vm_compute in mismatches agrees 0 cases.
+Print M.
+"""
+
+
+def fp_node(t):
+    k = t[0]
+    if k == "char":
+        return "NChar %d" % t[1]
+    if k == "empty":
+        return "NEmpty"
+    if k == "star":
+        return "NStar (%s)" % fp_node(t[1])
+    if k in ("cat", "alt"):
+        out = "NNil"
+        for c in reversed(t[1:]):
+            out = "NCons (%s) (%s)" % (fp_node(c), out)
+        return "%s (%s)" % ("NCat" if k == "cat" else "NAlt", out)
+    raise ValueError("unknown node %r" % (k,))
+
+
+def fp_positions(t, acc):
+    if t[0] == "char":
+        acc.append(t[2])
+    elif t[0] in ("cat", "alt", "star"):
+        for c in t[1:]:
+            fp_positions(c, acc)
+    return acc
+
+
+def fp_case(a):
+    """Coq term for one dump of the direct route; None with a reason if the dump is not a tree numbered left to right."""
+    tree = a["tree"]
+    if not (tree[0] == "cat" and len(tree) == 3 and tree[2][0] == "char" and tree[2][1] == a["end_marker"]):
+        return None, "the root is not (r) followed by the end marker"
+    pos = fp_positions(tree, [])
+    if pos != list(range(1, len(pos) + 1)) or len(pos) != a["positions"]:
+        return None, "character leaves are not numbered 1..n from left to right (a leaf is shared or skipped): %r" % (pos[:40],)
+    nat = lambda l: "[" + "; ".join(str(x) for x in l) + "]%nat"
+    fol = "[" + "; ".join("(%s, %s)" % (k, "[" + "; ".join(str(x) for x in v) + "]") for k, v in sorted(a["follows"].items(), key=lambda kv: int(kv[0]))) + "]%nat"
+    d = a["dfa"]
+    dfa = "({| d_start := %d; d_edges := [%s] |}, [%s])" % (d["start"], "; ".join("(%d,%d,%d,%d)" % tuple(e) for e in d["trans"]),
+                                                          "; ".join(str(x) for x in d["finals"]))
+    return "(%s, %d, %s, %s, %s, %s, %s)" % (fp_node(tree[1]), a["end_marker"], "true" if a["nullable"] else "false",
+                                             nat(a["first"]), nat(a["last"]), fol, dfa), None
+
+
 def patterns_for(tier, rng):
     pats = R.corpus(PROP) + NULLABLE_SHAPES + PREFIX_ALTERNATIONS + followpos_shapes(tier) + quantified_nullable_groups(tier) + loops_over_nullable_bodies(tier) + list(R.EVERY_CONSTRUCT)
     pats += R.small_exhaustive() if tier != "quick" else R.small_exhaustive()[::3]
@@ -81,7 +145,8 @@ def check(tier):
         rep.violation("translator", {"theorem": "gen/RuneGo.v cannot be regenerated", "detail": str(e)}, no_input=True)
         return rep.finish()
     ok, log = C.coq_make(["theories/Props/C10.vo"])
-    for t in ["three_way_agreement", "three_way_agreement_guarded", "position_automaton_examples"]:
+    for t in ["three_way_agreement", "three_way_agreement_guarded", "position_automaton_examples", "position_automaton_accepts_exactly_the_language",
+              "tree_language_is_its_expression", "checked_automaton_is_the_position_automaton_of_its_tree", "followpos_example"]:
         rep.obligation("Props/C10.v: " + t, ok)
     rep.cov["print_assumptions"] = "Closed under the global context x%d" % log.count("Closed under the global context") if ok else "n/a"
 
@@ -106,6 +171,39 @@ def check(tier):
             autos.append(n["reindexed"])
         dist[["accepted", "syntax", "semantic", "other"][ca]] += 1
         cases.append((p, ca, autos))
+    # ---- the direct route from the inside: tree, nullable / firstpos / lastpos / followpos and automaton vs Reg/Followpos.v
+    fp_pats = [p for p, code, _ in cases if code == 0]
+    fp_res = C.hook_map([{"op": "regex_ast", "pattern": p} for p in fp_pats], timeout_each=10)
+    fp_cases, fp_meta, fp_shape = [], [], []
+    for p, r in zip(fp_pats, fp_res):
+        a = r.get("ast", {})
+        if r.get("outcome") != "ok" or a.get("outcome") != "ok" or a.get("positions", 0) > 160:
+            continue
+        term, why = fp_case(a)
+        if term is None:
+            fp_shape.append((p, why))
+            continue
+        fp_cases.append(term)
+        fp_meta.append((p, a))
+    fp_bad, fp_err, fp_slow = [], None, 0
+    fshard = 40
+    fpaths = []
+    for o in range(0, len(fp_cases), fshard):
+        path = os.path.join(C.GEN, "cases_C10fp_%d.v" % (o // fshard))
+        with open(path, "w") as f:
+            f.write(FP_V % ";\n".join(fp_cases[o:o + fshard]))
+        fpaths.append(path)
+    for (okc, outc), o in zip(C.coqc_many(fpaths, 600), range(0, len(fp_cases), fshard)):
+        if not okc and not outc.strip():
+            fp_slow += min(fshard, len(fp_cases) - o)
+            continue
+        m = C.parse_mismatches(outc) if okc else None
+        if m is None:
+            fp_err = outc
+            break
+        fp_bad.extend(o + x for x in m)
+    dist["direct_route_trees"] = len(fp_cases)
+    dist["direct_route_trees_undecided_slow"] = fp_slow
     bad, out = R.run_case_file("cases_C10", cases)
     rep.cov["evaluations"] = len(cases)
     rep.cov["undecided_slow_patterns"] = [cases[i][0] for i in R.LAST.get("slow", [])][:10]
@@ -134,6 +232,29 @@ def check(tier):
     elif known_idx:
         i = known_idx[0]
         rep.violation("language", {"pattern": cases[i][0], "what_fails": "a set of the pattern contains NUL (epsilon of the automata library)"})
+    if fp_err is not None:
+        rep.obligation("direct-route cases compile", False)
+        rep.violation("cases", {"theorem": "gen/cases_C10fp_*.v does not compile", "log": fp_err[-3000:]}, no_input=True)
+    else:
+        rep.obligation("direct route: tree numbered left to right, nullable / firstpos / lastpos / followpos == model, automaton == position automaton "
+                       "of the tree (certified) on %d trees" % len(fp_cases), not fp_bad and not fp_shape)
+    for p, why in fp_shape[:2]:
+        rep.failure("followpos", {"followpos-shape"}, {"pattern": p, "what_fails": why})
+    for i in fp_bad[:3]:
+        p, a = fp_meta[i]
+        wit = None
+        try:
+            nd = next((c[2][1] for c in cases if c[0] == p and len(c[2]) > 1), None)
+            if nd is not None:
+                wit = R.distinguishing(a["dfa"], nd)
+        except Exception:
+            wit = None
+        detail = {"pattern": p, "dumped": {k: a[k] for k in ("nullable", "first", "last", "follows")},
+                  "what_fails": "the tables or the automaton of the direct route differ from the model of Reg/Followpos.v"}
+        if wit is not None:
+            detail["string_codepoints"] = wit
+            detail["note"] = "on this string the direct route and the NFA route disagree"
+        rep.failure("followpos", {"followpos"}, detail, no_input=(wit is None))
     for p, ca, cn in outcome_diff[:3]:
         rep.failure("outcome", {"routes-outcome"}, {"pattern": p, "ast_route": ca, "nfa_route": cn,
                                                     "note": "0 accepted, 1 syntax, 2 semantic, 3 panic/other"})
